@@ -17,10 +17,10 @@ VARIABLES l,         \* index of the next event
           c,         \* configuration of the current run (Reset event)
           status, alive, execs, lastOK, created, rwait, initst, checked,
           stopped, pastCreate, pastCheck, attAtStop, completedAtStop, sigs, killRound, timedOut,
-          hlog, hst, returned, viol, nruns
+          hlog, hst, returned, viol, nruns, facts
 
 vars == <<l, c, status, alive, execs, lastOK, created, rwait, initst, checked, stopped, pastCreate, pastCheck, attAtStop,
-          completedAtStop, sigs, killRound, timedOut, hlog, hst, returned, viol, nruns>>
+          completedAtStop, sigs, killRound, timedOut, hlog, hst, returned, viol, nruns, facts>>
 
 Rng(seq) == {seq[i] : i \in DOMAIN seq}
 E == Trace[l]
@@ -33,7 +33,7 @@ Init == /\ l = 1 /\ c = NoCfg /\ status = <<>> /\ alive = <<>> /\ execs = <<>> /
         /\ created = <<>> /\ rwait = <<>> /\ initst = <<>> /\ checked = <<>> /\ pastCheck = <<>>
         /\ stopped = FALSE /\ pastCreate = <<>> /\ attAtStop = <<>> /\ completedAtStop = FALSE
         /\ sigs = <<>> /\ killRound = FALSE /\ timedOut = FALSE
-        /\ hlog = <<>> /\ hst = <<>> /\ returned = FALSE /\ viol = {} /\ nruns = 0
+        /\ hlog = <<>> /\ hst = <<>> /\ returned = FALSE /\ viol = {} /\ nruns = 0 /\ facts = {}
 
 Reset ==
   /\ E.ev = "Reset"
@@ -48,20 +48,20 @@ Reset ==
      /\ sigs' = [s \in S |-> {}]
   /\ stopped' = FALSE /\ completedAtStop' = FALSE /\ killRound' = FALSE /\ timedOut' = FALSE
   /\ hlog' = <<>> /\ hst' = [h \in {"success", "failure", "cancel", "exit"} |-> NS]
-  /\ returned' = FALSE /\ viol' = {} /\ nruns' = nruns + 1
+  /\ returned' = FALSE /\ viol' = {} /\ nruns' = nruns + 1 /\ facts' = {}
 
 StatusEv ==
   /\ E.ev = "Status"
   /\ status' = [status EXCEPT ![E.s] = E.st]
   /\ UNCHANGED <<c, alive, execs, lastOK, created, rwait, initst, checked, pastCheck, stopped, pastCreate, attAtStop,
-                 completedAtStop, sigs, killRound, timedOut, hlog, hst, returned, viol, nruns>>
+                 completedAtStop, sigs, killRound, timedOut, hlog, hst, returned, viol, nruns, facts>>
 
 ExecCreate ==
   /\ E.ev = "ExecCreate"
   /\ created' = [created EXCEPT ![E.s] = TRUE]
   /\ viol' = Add(viol, c.dry, "C03_DryRunCreatedExecutor")
   /\ UNCHANGED <<c, status, alive, execs, lastOK, rwait, initst, checked, pastCheck, stopped, pastCreate, attAtStop,
-                 completedAtStop, sigs, killRound, timedOut, hlog, hst, returned, nruns>>
+                 completedAtStop, sigs, killRound, timedOut, hlog, hst, returned, nruns, facts>>
 
 \* a dependency that is labelled finished must really have succeeded (in this run, or in the
 \* recorded run that is being retried)
@@ -86,6 +86,7 @@ ExecBegin ==
   /\ alive' = [alive EXCEPT ![E.s] = TRUE]
   /\ execs' = [execs EXCEPT ![E.s] = @ + 1]
   /\ checked' = [checked EXCEPT ![E.s] = FALSE]
+  /\ facts' = Add(facts, stopped /\ pastCheck[E.s], "windowStart")
   /\ UNCHANGED <<c, status, lastOK, created, rwait, initst, pastCheck, stopped, pastCreate, attAtStop,
                  completedAtStop, sigs, killRound, timedOut, hlog, hst, returned, nruns>>
 
@@ -93,6 +94,7 @@ ExecEnd ==
   /\ E.ev = "ExecEnd"
   /\ alive' = [alive EXCEPT ![E.s] = FALSE]
   /\ lastOK' = [lastOK EXCEPT ![E.s] = E.ok]
+  /\ facts' = Add(facts, stopped /\ ~E.ok /\ E.why = "script", "failAfterStop")
   /\ UNCHANGED <<c, status, execs, created, rwait, initst, checked, pastCheck, stopped, pastCreate, attAtStop,
                  completedAtStop, sigs, killRound, timedOut, hlog, hst, returned, viol, nruns>>
 
@@ -100,18 +102,18 @@ RetryWait ==
   /\ E.ev = "RetryWait"
   /\ rwait' = [rwait EXCEPT ![E.s] = TRUE]
   /\ UNCHANGED <<c, status, alive, execs, lastOK, created, initst, checked, pastCheck, stopped, pastCreate, attAtStop,
-                 completedAtStop, sigs, killRound, timedOut, hlog, hst, returned, viol, nruns>>
+                 completedAtStop, sigs, killRound, timedOut, hlog, hst, returned, viol, nruns, facts>>
 RetryWake ==
   /\ E.ev = "RetryWake"
   /\ rwait' = [rwait EXCEPT ![E.s] = FALSE]
   /\ UNCHANGED <<c, status, alive, execs, lastOK, created, initst, checked, pastCheck, stopped, pastCreate, attAtStop,
-                 completedAtStop, sigs, killRound, timedOut, hlog, hst, returned, viol, nruns>>
+                 completedAtStop, sigs, killRound, timedOut, hlog, hst, returned, viol, nruns, facts>>
 
 CheckedEv ==
   /\ E.ev = "Checked"
   /\ checked' = [checked EXCEPT ![E.s] = TRUE]
   /\ UNCHANGED <<c, status, alive, execs, lastOK, created, rwait, initst, pastCheck, stopped, pastCreate, attAtStop,
-                 completedAtStop, sigs, killRound, timedOut, hlog, hst, returned, viol, nruns>>
+                 completedAtStop, sigs, killRound, timedOut, hlog, hst, returned, viol, nruns, facts>>
 
 ExpectedSig(s) == IF killRound THEN "kill"
                   ELSE IF c.sigOnStop[s] = "SIGINT" THEN "int"
@@ -122,7 +124,7 @@ KillEv ==
   /\ viol' = Add(Add(viol, c.repeat[E.s], "C05_RepeatStepSignalled"),
                  E.alive /\ E.sig # ExpectedSig(E.s), "C05_WrongSignal")
   /\ UNCHANGED <<c, status, alive, execs, lastOK, created, rwait, initst, checked, pastCheck, stopped, pastCreate, attAtStop,
-                 completedAtStop, killRound, timedOut, hlog, hst, returned, nruns>>
+                 completedAtStop, killRound, timedOut, hlog, hst, returned, nruns, facts>>
 
 StopEv ==
   /\ E.ev = "Stop"
@@ -130,7 +132,7 @@ StopEv ==
   /\ attAtStop' = [s \in Steps |-> IF alive[s] THEN execs[s] ELSE 0]
   /\ completedAtStop' = \A s \in Steps : Terminal(status[s])
   /\ UNCHANGED <<c, status, alive, execs, lastOK, created, rwait, initst, checked, sigs, killRound, timedOut,
-                 hlog, hst, returned, viol, nruns>>
+                 hlog, hst, returned, viol, nruns, facts>>
 
 \* the process of s that was alive when the stop was accepted is still the live one
 StillAlive(s) == attAtStop[s] > 0 /\ alive[s] /\ execs[s] = attAtStop[s]
@@ -141,28 +143,28 @@ SignalReturn ==
                THEN Add(viol, \E s \in Steps : StillAlive(s) /\ ~c.repeat[s] /\ sigs[s] = {}, "C05_NotSignalled")
                ELSE Add(viol, \E s \in Steps : alive[s] /\ ~c.repeat[s] /\ "kill" \notin sigs[s], "C05_NoForceKill")
   /\ UNCHANGED <<c, status, alive, execs, lastOK, created, rwait, initst, checked, pastCheck, stopped, pastCreate, attAtStop,
-                 completedAtStop, sigs, killRound, timedOut, hlog, hst, returned, nruns>>
+                 completedAtStop, sigs, killRound, timedOut, hlog, hst, returned, nruns, facts>>
 
 KillRound == /\ E.ev = "KillRound" /\ killRound' = TRUE
              /\ UNCHANGED <<c, status, alive, execs, lastOK, created, rwait, initst, checked, pastCheck, stopped, pastCreate, attAtStop,
-                            completedAtStop, sigs, timedOut, hlog, hst, returned, viol, nruns>>
+                            completedAtStop, sigs, timedOut, hlog, hst, returned, viol, nruns, facts>>
 TimeoutEv == /\ E.ev = "Timeout" /\ timedOut' = TRUE
              /\ UNCHANGED <<c, status, alive, execs, lastOK, created, rwait, initst, checked, pastCheck, stopped, pastCreate, attAtStop,
-                            completedAtStop, sigs, killRound, hlog, hst, returned, viol, nruns>>
+                            completedAtStop, sigs, killRound, hlog, hst, returned, viol, nruns, facts>>
 
 HCreate == /\ E.ev = "HCreate"
            /\ viol' = Add(viol, c.dry, "C03_DryRunCreatedExecutor")
            /\ UNCHANGED <<c, status, alive, execs, lastOK, created, rwait, initst, checked, pastCheck, stopped, pastCreate, attAtStop,
-                          completedAtStop, sigs, killRound, timedOut, hlog, hst, returned, nruns>>
+                          completedAtStop, sigs, killRound, timedOut, hlog, hst, returned, nruns, facts>>
 HBegin ==
   /\ E.ev = "HBegin"
   /\ hlog' = Append(hlog, E.h)
   /\ viol' = Add(Add(viol, \E s \in Steps : alive[s], "C04_HandlerWhileStepRuns"), c.dry, "C03_DryRunExecuted")
   /\ UNCHANGED <<c, status, alive, execs, lastOK, created, rwait, initst, checked, pastCheck, stopped, pastCreate, attAtStop,
-                 completedAtStop, sigs, killRound, timedOut, hst, returned, nruns>>
+                 completedAtStop, sigs, killRound, timedOut, hst, returned, nruns, facts>>
 HStatus == /\ E.ev = "HStatus" /\ hst' = [hst EXCEPT ![E.h] = E.st]
            /\ UNCHANGED <<c, status, alive, execs, lastOK, created, rwait, initst, checked, pastCheck, stopped, pastCreate, attAtStop,
-                          completedAtStop, sigs, killRound, timedOut, hlog, returned, viol, nruns>>
+                          completedAtStop, sigs, killRound, timedOut, hlog, returned, viol, nruns, facts>>
 
 \* ---- end of a run -------------------------------------------------------------------
 Runnable(s) == (\A d \in Deps[s] : DepAllows(status[d], c.contF[d], c.contS[d])) /\ c.pcond[s] # "unmet"
@@ -173,13 +175,14 @@ FinalChecks(run, final) ==
                       ~C02_Local(Deps, c.contF, c.contS, status, s, execs[s], lastOK[s], c.pcond[s] # "unmet"),
                 "C02_FinalStateInconsistent")
       v2 == Add(v1, Plain /\ \E s \in Steps : ~c.repeat[s] /\ initst[s] = NS /\ Runnable(s) /\
-                      execs[s] # C03_Expected(c.failK[s], c.rlimit[s]), "C03_WrongExecutionCount")
+                      c.failK[s] >= 0 /\ execs[s] # C03_Expected(c.failK[s], c.rlimit[s]), "C03_WrongExecutionCount")
       v3 == Add(v2, Plain /\ \E s \in Steps : initst[s] = NS /\ ~Runnable(s) /\ execs[s] # 0, "C03_RanUnrunnable")
       v4 == Add(v3, ~c.dry /\ \E s \in Steps : ~c.repeat[s] /\ initst[s] = NS /\
                       final[s].retry # (IF execs[s] >= 1 THEN execs[s] - 1 ELSE 0) /\
                       ~(stopped \/ timedOut) , "C03_RetryCountMismatch")
       v5 == Add(v4, ~c.dry /\ \E s \in Steps : status[s] = FIN /\ execs[s] = 0 /\ initst[s] # FIN, "C03_FinishedWithoutRunning")
-      v6 == Add(v5, ~c.dry /\ \E s \in Steps : status[s] = FIN /\ execs[s] >= 1 /\ ~lastOK[s] /\ ~c.repeat[s], "C02_FinishedButFailed")
+      v6a == Add(v5, Plain /\ \E s \in Steps : status[s] = FIN /\ execs[s] >= 1 /\ ~lastOK[s] /\ ~c.repeat[s], "C02_FinishedButFailed")
+      v6 == Add(v6a, ~Plain /\ ~c.dry /\ \E s \in Steps : status[s] = FIN /\ execs[s] >= 1 /\ ~lastOK[s] /\ ~c.repeat[s], "C08_FinishedButFailed")
       v7 == Add(v6, ~timedOut /\ ~(IF stopped THEN C04_OutcomeStop(Steps, status, run, completedAtStop)
                                                 ELSE C04_OutcomeNoStop(Steps, status, run)), "C04_WrongOutcome")
       v8 == Add(v7, ~timedOut /\ ~c.dry /\ ~C04_Handlers(Rng(c.handlers), run, hlog), "C04_WrongHandlers")
@@ -195,12 +198,12 @@ ReturnedEv ==
   /\ returned' = TRUE
   /\ viol' = FinalChecks(E.status, E.final)
   /\ UNCHANGED <<c, status, alive, execs, lastOK, created, rwait, initst, checked, pastCheck, stopped, pastCreate, attAtStop,
-                 completedAtStop, sigs, killRound, timedOut, hlog, hst, nruns>>
+                 completedAtStop, sigs, killRound, timedOut, hlog, hst, nruns, facts>>
 
 Known == {"Reset", "Checked", "Status", "ExecCreate", "ExecBegin", "ExecEnd", "RetryWait", "RetryWake", "Kill", "Stop",
           "SignalReturn", "KillRound", "Timeout", "HCreate", "HBegin", "HStatus", "Returned"}
 Other == /\ E.ev \notin Known /\ UNCHANGED <<c, status, alive, execs, lastOK, created, rwait, initst, checked, pastCheck, stopped,
-                 pastCreate, attAtStop, completedAtStop, sigs, killRound, timedOut, hlog, hst, returned, viol, nruns>>
+                 pastCreate, attAtStop, completedAtStop, sigs, killRound, timedOut, hlog, hst, returned, viol, nruns, facts>>
 
 Next == /\ l <= Len(Trace) /\ l' = l + 1
         /\ \/ Reset \/ CheckedEv \/ StatusEv \/ ExecCreate \/ ExecBegin \/ ExecEnd \/ RetryWait \/ RetryWake \/ KillEv
@@ -212,7 +215,8 @@ StopPhase == IF ~stopped THEN "none" ELSE IF completedAtStop THEN "after-steps" 
 Verdict == [run |-> c.run, viol |-> viol, stop |-> stopped, stopPhase |-> StopPhase, timeout |-> timedOut,
             dry |-> c.dry, doneChan |-> c.doneChan, kill |-> killRound,
             anyRepeat |-> \E s \in Steps : c.repeat[s], anyIgnore |-> \E s \in Steps : ~c.obeys[s],
-            execs |-> execs, status |-> status]
+            execs |-> execs, status |-> status, facts |-> facts, n |-> c.n, maxActive |-> c.maxActive,
+            handlers |-> c.handlers, model |-> ("model" \in DOMAIN c)]
 \* evaluated as an invariant: prints one line per finished run, and one when the trace is consumed
 Emit == /\ (returned /\ l > 1 /\ Trace[l-1].ev = "Returned") => PrintT("VERDICT " \o ToJson(Verdict))
         /\ (l = Len(Trace) + 1) => PrintT("CONSUMED " \o ToString(Len(Trace)) \o " runs " \o ToString(nruns))
